@@ -5,7 +5,7 @@ from typing import Dict, List, Optional, Set, Tuple
 from ..model import AnalysisError, Program, walk_function, parent
 from .. import guards as G
 from ..guards import norm, call_name, const_str, isinstance_atom, known_instance, tag_equalities, card_truth, name_subject
-from ..facts import Fn, CORE, MUTATORS, assigned_from, enclosing_loops, whole_collection_loop, enclosing_stmt
+from ..facts import Fn, CORE, MUTATORS, assigned_from, enclosing_loops, whole_collection_loop, enclosing_stmt, reaching_defs
 from ..cfg import conj_atoms
 from . import shared as S
 from .shared import fn
@@ -41,9 +41,9 @@ def _tag_arms(f: Fn, subject: str) -> List[Tuple[str, ast.AST]]:
 # C14
 # =====================================================================================================
 
-def r14_1_scalar_table(ctx):
+def r14_1_scalar_table(ctx, rid='R14.1'):
     P = ctx.P
-    r = ctx.rule('R14.1', 'one scalar table: get_value, set_value, set_attribute and is_scalar agree with scalar_type_to_tag',
+    r = ctx.rule(rid, 'one scalar table: get_value, set_value, set_attribute and is_scalar agree with scalar_type_to_tag',
                  floor=12)
     table = S.scalar_table(P)
     want = {'str': table['str'], 'int': table['int'], 'float': table['float'], 'bool': table['bool'], 'None': table['None']}
@@ -121,6 +121,22 @@ def r14_1_scalar_table(ctx):
             tagsrc.add(norm(x))
     r.check('scalar_type_to_tag[type(%s)]' % vp in tagsrc, 'set_value takes the tag from scalar_type_to_tag[type(value)]',
             v.key('tag-source'), v.loc(), 'set_value does not tag the new node with scalar_type_to_tag[type(value)] (sources: %s)' % sorted(tagsrc))
+    for n in news:
+        if not isinstance(n.args[0], ast.Name):
+            continue
+        for d in reaching_defs(v, n, n.args[0].id):
+            if norm(d.value) == 'scalar_type_to_tag[type(%s)]' % vp:
+                gs = set()
+                for g, p in v.guards(d):
+                    if p and isinstance(g, ast.Call) and isinstance(g.func, ast.Attribute) and g.func.attr == 'startswith' \
+                            and len(g.args) == 1 and const_str(g.args[0]) == CORE \
+                            and _reaching_texts(v, g.func.value) == {'self.yaml_node.tag'}:
+                        continue
+                    gs.add(G.canon_atom(g, p))
+                r.check(not gs, 'set_value retags every node carrying a core-schema '
+                        'tag (any tag:yaml.org,2002: tag)', v.key('retag-condition'), v.loc(d), 'set_value takes the new tag from '
+                        'scalar_type_to_tag only under %s: a node with another core tag (!!binary, the `=`/`<<` value/merge tags, '
+                        '!!set ...) keeps it, and is_scalar(type(v)) is False after set_value(v)' % sorted(gs))
     stores = [n for n in v.walk() if isinstance(n, ast.Assign) and any(norm(t) == 'self.yaml_node' for t in n.targets)]
     okstore = bool(stores) and all(any(isinstance(x, ast.Call) and x in news for x in S._flow_sources(v, n.value)) for n in stores)
     marks = {v.nid(n) for n in stores}
@@ -145,6 +161,50 @@ def r14_1_scalar_table(ctx):
     trues = [x for x in i.returns() if isinstance(x.value, ast.Constant) and x.value.value is True]
     r.check(all(known_instance(i.guards(x), 'self.yaml_node', {'ScalarNode'}) for x in trues), 'is_scalar() is True only for a ScalarNode',
             i.key('untyped'), i.loc(), 'is_scalar() can be True for a node that is not a ScalarNode')
+    # without a type every ScalarNode is a scalar, whatever its tag (is_scalar/is_mapping/is_sequence partition the nodes)
+    anyr = [x for x in i.returns() if ('%s is _Any' % tp, True) in {G.canon_atom(g, p) for g, p in i.guards(x)}
+            and known_instance(i.guards(x), 'self.yaml_node', {'ScalarNode'})]
+    r.check(bool(anyr) and all(isinstance(x.value, ast.Constant) and x.value.value is True for x in anyr),
+            'is_scalar() without a type answers True for every ScalarNode', i.key('untyped-any-scalar'), i.loc(anyr[0]) if anyr else i.loc(),
+            'is_scalar() without a type answers `%s` for a ScalarNode: a scalar with a custom or rarer core tag (!!binary, !Class) '
+            'is neither scalar, mapping nor sequence, and require_scalar() rejects it' % (norm(anyr[0].value) if anyr and anyr[0].value is not None else 'nothing'))
+    r.done()
+
+
+def r17_7_set_value_marks(ctx, rid='R17.7'):
+    P = ctx.P
+    r = ctx.rule(rid, 'a node replaced by Node.set_value keeps the position of the node it replaces (constructor errors for enums and '
+                      'string-likes cite node.start_mark after savorize)', floor=2)
+    v = fn(P, NODE + 'set_value')
+    news = [n for n in v.walk() if isinstance(n, ast.Call) and norm(n.func) in ('yaml.ScalarNode', 'ScalarNode')]
+    if not news:
+        raise AnalysisError('anchor missing: ScalarNode construction in Node.set_value')
+    for n in news:
+        for i, m in ((2, 'start_mark'), (3, 'end_mark')):
+            arg = n.args[i] if len(n.args) > i else G.kwarg(n, m)
+            got = _reaching_texts(v, arg) if arg is not None else {'<default None>'}
+            r.check(got == {'self.yaml_node.%s' % m}, 'set_value: new node\'s %s = self.yaml_node.%s' % (m, m), v.key('mark:%s' % m),
+                    v.loc(n), 'the node installed by set_value gets %s as its %s instead of the replaced node\'s: an error about this '
+                    'value is reported at a position that is not the value\'s (or not in the document at all)' % (sorted(got), m))
+    r.done()
+
+
+def r18_6_set_value_copies(ctx, rid='R18.6'):
+    P = ctx.P
+    r = ctx.rule(rid, 'Node.set_value never edits the wrapped node in place: on every path it installs a fresh ScalarNode (an anchored '
+                      'scalar is one node object for all its aliases; the class tag must land on the copy)', floor=1)
+    v = fn(P, NODE + 'set_value')
+    news = [n for n in v.walk() if isinstance(n, ast.Call) and norm(n.func) in ('yaml.ScalarNode', 'ScalarNode')]
+    stores = [n for n in v.walk() if isinstance(n, ast.Assign) and any(norm(t) == 'self.yaml_node' for t in n.targets)]
+    okstore = bool(stores) and all(any(isinstance(x, ast.Call) and x in news for x in S._flow_sources(v, n.value)) for n in stores)
+    marks = {v.nid(n) for n in stores}
+    allpaths = all(v.cfg.must_pass(v.cfg.entry, rn, marks) for rn in v.cfg.returns())
+    r.check(okstore and allpaths, 'every exit of set_value has replaced self.yaml_node by a new ScalarNode', v.key('replaces-node'), v.loc(),
+            'set_value can return without installing a new node: the shared node of an anchored scalar is then retagged in place by '
+            'the loader and its other references are no longer recognised')
+    inplace = [n for n in v.walk() if isinstance(n, (ast.Attribute,)) and isinstance(n.ctx, ast.Store) and norm(n.value) == 'self.yaml_node']
+    r.check(not inplace, 'no attribute of the wrapped node is assigned', v.key('in-place-write'), v.loc(inplace[0]) if inplace else v.loc(),
+            'set_value writes %s in place' % (norm(inplace[0]) if inplace else ''))
     r.done()
 
 
@@ -285,6 +345,23 @@ def r14_4_matches_total(ctx, rid='R14.4'):
     for t in ('int', 'float', 'bool', 'null'):
         r.check(CORE + t in arms, 'matches() has an arm for %s nodes' % t, f.key('arm:%s' % t), f.loc(),
                 'matches() has no arm for %s nodes: such values are compared as raw text with the default' % t)
+    # the remaining tags (str and everything without an arm): the node text equals the default itself - no conversion of either
+    # side, so a default that is not a string never matches
+    rest = [ret for ret in f.returns() if not (tag_equalities(f.guards(ret), '%s.tag' % vn, f.copies)[0])]
+    okr = bool(rest)
+    shown = ''
+    for ret in rest:
+        v = ret.value
+        while isinstance(v, ast.Call) and isinstance(v.func, ast.Name) and v.func.id == 'bool' and len(v.args) == 1:
+            v = v.args[0]
+        shown = norm(v) if v is not None else 'None'
+        if not (isinstance(v, ast.Compare) and len(v.ops) == 1 and isinstance(v.ops[0], ast.Eq)
+                and {f.alpha.text(v.left), f.alpha.text(v.comparators[0])} == {'%s.value' % vn, df}):
+            okr = False
+    r.check(okr, 'every other node: text == default, unconverted', f.key('text-arm'), f.loc(rest[0]) if rest else f.loc(),
+            'for str (and other) nodes matches() answers `%s` instead of comparing the node text with the default itself: a string '
+            'attribute whose text merely spells a non-string default (\'None\', \'0\', \'True\') is dropped from the dump and comes '
+            'back as that default' % shown)
     # bool polarity
     for ret in arms.get(CORE + 'bool', []):
         gt = f.guard_texts(ret)
